@@ -4,11 +4,14 @@ import PsModel.Spec.C18
 /-! line-protocol front end of the C18 model
 
 ```
-C18 (fmt (FRAME…))      FRAME = (efc FUNC FILE) | (cf FUNC) | (ae CTXFILE CTXNAME LINE|none) | (o) | (real FILE FUNC LINE)
+C18 (fmt (FRAME…))      FRAME = (efc FUNC FILE) | (cf FUNC) | (ae CTXID CTXFILE CTXNAME LINE|none) | (o) | (real FILE FUNC LINE)
    → model=<entries of fmt> accept=<frame grammar accepts> spec=<triples of the activations (Python's own)>
+     pre=<entries of the formatter's shape before the repair of C18-F3>
+C18 (last NAME KIND TEXT)   KIND = native | returns | raises | suspends | nonstring
+   → model=<last line of the report> spec=<Python's> pre=<before the repair of C18-F9>
 C18 (loops (CAUGHT|legacy|new LOGGER (OCC…))…)   OCC = (RES BOOL RES BOOL RES), RES = ok | (raise N)
    → model=<served runs subs log> spec=<the same from specRecs/specRuns>
-C18 (load (NAME RES)…)  → model=<contexts | script-logger records> spec=<…>
+C18 (load (NAME RES [NSHUTDOWN])…)  → model=<contexts | script-logger records | functions run> spec=<…> pre=<before the repair of C18-F10>
 ```
 -/
 namespace PsModel.C18
@@ -17,8 +20,8 @@ open PsModel
 def frame? : Sexp → Option Frame
   | .list [.atom "efc", .atom fn, .atom file] => some (.evalFuncCall fn file)
   | .list [.atom "cf", .atom fn] => some (.callFunc fn)
-  | .list [.atom "ae", .atom cf, .atom cn, .atom "none"] => some (.aeval cf cn none)
-  | .list [.atom "ae", .atom cf, .atom cn, l] => l.nat? >>= fun n => some (.aeval cf cn (some n))
+  | .list [.atom "ae", c, .atom cf, .atom cn, .atom "none"] => c.nat? >>= fun k => some (.aeval k cf cn none)
+  | .list [.atom "ae", c, .atom cf, .atom cn, l] => c.nat? >>= fun k => l.nat? >>= fun n => some (.aeval k cf cn (some n))
   | .list [.atom "o"] => some .other
   | .list [.atom "real", .atom file, .atom fn, l] => l.nat? >>= fun n => some (.real file fn n)
   | _ => none
@@ -38,29 +41,29 @@ def accepts : Bool → Bool → List Frame → Bool      -- seenScript, pendingC
   | seen, _, .real _ _ _ :: r => accepts seen false r
   | _, _, .callFunc _ :: r => accepts true true r
   | seen, pend, .evalFuncCall _ _ :: r => (pend || !seen) && accepts true false r
-  | _, pend, .aeval _ _ _ :: r => !pend && accepts true false r
+  | _, pend, .aeval _ _ _ _ :: r => !pend && accepts true false r
 
 /-- segmentation into activations: what Python itself would print for the script frames -/
-structure Seg where
+structure PySeg where
   file : String
   func : Option String
   ctxName : String
   line : Option Nat
 deriving Inhabited
 
-def flush (cur : Option Seg) (acc : List Entry) : List Entry :=
+def flush (cur : Option PySeg) (acc : List Entry) : List Entry :=
   match cur with
   | some ⟨f, g, _, some l⟩ => { file := f, func := g, line := l, isReal := false } :: acc
   | _ => acc
 
-def segment : Option Seg → Bool → List Frame → List Entry → List Entry
+def segment : Option PySeg → Bool → List Frame → List Entry → List Entry
   | cur, _, [], acc => (flush cur acc).reverse
   | cur, ar, .other :: r, acc => segment cur ar r acc
   | cur, ar, .callFunc _ :: r, acc => segment cur ar r acc
   | cur, _, .real f g l :: r, acc =>
     segment none true r ({ file := f, func := some g, line := l, isReal := true } :: flush cur acc)
   | cur, _, .evalFuncCall fn file :: r, acc => segment (some ⟨file, some fn, "", none⟩) false r (flush cur acc)
-  | cur, ar, .aeval cf cn line :: r, acc =>
+  | cur, ar, .aeval _ cf cn line :: r, acc =>
     match cur with
     | none => segment (some ⟨cf, entryFunc none cf cn, cn, line⟩) false r acc
     | some s =>
@@ -93,15 +96,30 @@ def showLog (l : List LogRec) : String :=
   "(" ++ " ".intercalate (l.map (fun r => s!"{r.logger}:{r.exc}:{if r.scriptTb then "tb" else "plain"}")) ++ ")"
 
 def file? : Sexp → Option SrcFile
-  | .list [.atom n, r] => res? r >>= fun x => some ⟨n, x⟩
+  | .list [.atom n, r] => res? r >>= fun x => some ⟨n, x, 0⟩
+  | .list [.atom n, r, k] => res? r >>= fun x => k.nat? >>= fun m => some ⟨n, x, m⟩
+  | _ => none
+
+def strImpl? (kind text : String) : Option StrImpl :=
+  match kind with
+  | "native" => some (.native (.returns text))
+  | "native-raises" => some (.native .raises)
+  | "returns" => some (.script (.returns text))
+  | "raises" => some (.script .raises)
+  | "nonstring" => some (.script .nonString)
+  | "suspends" => some (.script (.suspends text))
   | _ => none
 
 def handle (x : Sexp) : String :=
   match x with
+  | .list [.atom "last", .atom name, .atom kind, .atom text] =>
+    match strImpl? kind text with
+    | some i => s!"model={lastLine true name i} spec={pyLastLine name i} pre={lastLine false name i}"
+    | none => "err parse"
   | .list [.atom "fmt", .list fs] =>
     match Sexp.mapM? frame? fs with
     | some frames =>
-      s!"model={showEntries (fmt frames)} accept={if accepts false false frames then 1 else 0} spec={showEntries (segment none false frames [])}"
+      s!"model={showEntries (fmt frames)} accept={if accepts false false frames then 1 else 0} spec={showEntries (segment none false frames [])} pre={showEntries (fmtC Cfg.preF3 frames)}"
     | none => "err parse"
   | .list (.atom "loops" :: ls) =>
     match Sexp.mapM? loop? ls with
@@ -116,9 +134,10 @@ def handle (x : Sexp) : String :=
   | .list (.atom "load" :: fs) =>
     match Sexp.mapM? file? fs with
     | some files =>
-      let r := loadAll files ⟨[], []⟩
+      let r := loadAll files ⟨[], [], []⟩
       let recs := (r.log.filter (·.scriptTb)).map (·.logger)
-      s!"model={r.contexts}|{recs} spec={specContexts files}|{(failing files).map (·.name)}"
+      let pre := loadAllC false files ⟨[], [], []⟩
+      s!"model={r.contexts}|{recs}|{r.ran} spec={specContexts files}|{(failing files).map (·.name)}|[] pre={pre.contexts}|{pre.ran}"
     | none => "err parse"
   | _ => "err bad-command"
 
